@@ -12,7 +12,7 @@ from harness.common import driver_in, driver_out
 from autobahn.websocket.protocol import WebSocketProtocol as WSP
 
 KEY = b"\x01\x02\x03\x04"
-REASONS = [b"", b"bye", "tsch\u00fc\u00df".encode(), ("\u20ac" * 41).encode(), b"x" * 123, b"maintenance window"]       # token 0 = no reason
+REASONS = [b"", b"bye", "tsch\u00fc\u00df".encode(), ("\u20ac" * 41).encode(), b"x" * 123, b"maintenance window", b"k", "\u00e9".encode()]       # token 0 = no reason
 
 
 def why_of(p):
